@@ -355,8 +355,39 @@ def install_penalty(sink=None):
     return restore
 
 
+def install_dualfinder():
+    """NOT a monitor -- a controlled substitution used by the C11 metamorphic runs on real / noisy data to key the class
+    `finder_window` (listed finding polya_finder_not_mirror_dual) on its precise mechanism: `PolyAFinder.find_polyt_head`
+    is replaced by the exact mirror dual of the REAL `find_polya_tail` (the alignment is reverse-complemented: CIGAR
+    reversed, sequence reverse-complemented, reference interval mirrored at a large constant; the real tail finder is
+    called on it and the found position is mirrored back).  A difference between a run and its mirror image that
+    disappears under this substitution is caused by the head finder not being the dual of the tail finder and by nothing
+    else.  `find_polya_tail` itself is untouched."""
+    import src.polya_finder as PF
+    comp = {"A": "T", "C": "G", "G": "C", "T": "A", "N": "N", "a": "t", "c": "g", "g": "c", "t": "a", "n": "n"}
+    big = 1 << 40
+    real_tail = PF.PolyAFinder.find_polya_tail
+
+    class _Mirrored:
+        pass
+
+    def find_polyt_head(self, alignment, from_pos, to_pos, check_entire_head=False):
+        seq = alignment.seq
+        if not seq:
+            return -1
+        m = _Mirrored()
+        m.cigartuples = list(alignment.cigartuples)[::-1]
+        m.seq = "".join(comp.get(c, "N") for c in reversed(seq))
+        m.reference_start = big - alignment.reference_end
+        m.reference_end = big - alignment.reference_start
+        m.query_name = alignment.query_name
+        p = real_tail(self, m, from_pos, to_pos, check_entire_head)
+        return -1 if p == -1 else max(1, big + 1 - p)
+    PF.PolyAFinder.find_polyt_head = find_polyt_head
+
+
 INSTALLERS = {"penalty": install_penalty, "c14events": install_c14events, "elong": install_elong, "binsearch": install_binsearch,
-              "listfns": install_listfns}
+              "listfns": install_listfns, "dualfinder": install_dualfinder}
 
 
 def install(names):
